@@ -29,5 +29,15 @@ func VerifStartPub(port int, summaries bool) (*VerifPub, error) {
 // Send hands one record to the publisher goroutine.
 func (p *VerifPub) Send(v VerifRecord) { p.ch <- []*DataRecord{verifDataRecord(v)} }
 
+// SendBatch hands several records to the publisher goroutine in ONE channel send, as PublishData does
+// (dp.PubRecordsChan <- records).
+func (p *VerifPub) SendBatch(vs []VerifRecord) {
+	recs := make([]*DataRecord, len(vs))
+	for i, v := range vs {
+		recs[i] = verifDataRecord(v)
+	}
+	p.ch <- recs
+}
+
 // Close closes the feeding channel; the publisher goroutine then closes its socket.
 func (p *VerifPub) Close() { close(p.ch) }
